@@ -174,7 +174,7 @@ func init() {
 		Desc: "version and msize negotiation (server: raw Tversion cross product; client: NewClient against fake servers)",
 		Run:  runC12,
 		Directed: func(string) int { return c12Cases() },
-		Quick:    24000, Thorough: 200000, QuickSecs: 60, ThorSecs: 900,
+		Quick:    24000, Thorough: 3000000, QuickSecs: 60, ThorSecs: 900,
 		Rule:  fmt.Sprintf("server: full cross product of %d msize values (0, 1, <header, 154, 4 MiB+-1, 2^31, 2^32-1) x %d version strings (every N incl. leading zeros, 32-bit overflow, signs, extra dots, case, trailing bytes, other dialects, arbitrary bytes), fresh and mid-session, plus random strings from version-like pieces; client: all pairs (requested, offered) with fake servers that lower msize and/or version, answer unknown / other dialects / garbage, Rlerror(EAGAIN) k times or another Rlerror. Oracle: an executable ten-line reference of the statement's rule (both readings accepted where the statement leaves N's form open); reply never Rlerror; announced version re-negotiates to itself; client: NewClient fails for non-9P2000.L replies, else Version() = offered and every later frame fits the offered msize and uses only message types of the offered version. Input/configuration property: the search is over values, not schedules.", len(c12Msizes), len(c12Versions)),
 		Real:  []string{"p9.Server (tversion.handle, parseVersion)", "p9.NewClient", "p9 wire codec"},
 		Stub:  []string{"transport (simnet pipes)", "raw 9P peer / fake server (refcodec)", "backend tree (simfs)"},
